@@ -116,7 +116,7 @@ def node(gram: dict, cls: str, tag: str = "", _depth: int = 0, **fields: Any) ->
 
 
 def import_leaf(gram: dict, cls: str, names: list[str], module: Any = None, level: Any = 0) -> ANode:
-    aliases = [node(gram, "alias", name=Sym(n, "str"), asname=None) for n in names]
+    aliases = [node(gram, "alias", name=Sym(n, "str"), asname=Sym(f"{n}_asname", "optstr")) for n in names]
     extra: dict[str, Any] = {}
     for fname, _typ in gram[cls]:
         if fname == "module":
@@ -476,17 +476,37 @@ def run_r2_r3_r4(repo: Repo, res: Result, gram: dict, col: Collector) -> tuple[l
 
 
 def check_anchor(head: Any, case: Case) -> tuple[str | None, str | None]:
-    """None if `head` is ancestors(importer)[-level]; a violation text; or 'undecided'. Second value: fq of the ancestors function."""
+    """None if `head` is ancestors(importer)[-level]; a violation text; or 'undecided'. Second value: fq of the ancestors function.
+
+    Accepted spellings of "the importer with its last `level` components removed":
+      H[-level], H[len(H) - level], reversed(H)[level - 1], H[::-1][level - 1]      with H = <ancestors function>(importer)
+      importer.rsplit(".", level)[0],  ".".join(importer.split(".")[:-level])
+    """
+    F, L = case.F, case.L
+    if isinstance(head, Term) and not mentions(head, L):
+        return f"the package a relative import is resolved against ({show(head)}) does not depend on the statement's level", None
+    if isinstance(head, Term) and not mentions(head, F):
+        return f"the package a relative import is resolved against ({show(head)}) does not depend on the importing module", None
+    if head == App("index", (App("meth:rsplit", (F, ".", L)), 0)):
+        return None, None
+    if head == App("meth:join", (".", App("index", (App("meth:split", (F, ".")), App("slice", (None, App("neg", (L,)), None)))))):
+        return None, None
     if not (isinstance(head, App) and head.fn == "index"):
-        if isinstance(head, Term) and not mentions(head, case.L):
-            return f"the package a relative import is resolved against ({show(head)}) does not depend on the statement's level", None
         return "undecided", None
     seq, idx = head.args
-    if not (isinstance(seq, App) and seq.fn.startswith("call:") and seq.args == (case.F,)):
+    rev = False
+    if isinstance(seq, App) and (seq.fn == "reversed" or (seq.fn == "index" and seq.args[1] == App("slice", (None, None, -1)))):
+        seq, rev = seq.args[0], True
+    if not (isinstance(seq, App) and seq.fn.startswith("call:") and seq.args == (F,)):
         return "undecided", None
-    good_idx = idx == App("neg", (case.L,)) or idx == App("sub", (App("len", (seq,)), case.L))
+    if rev:
+        good_idx = idx == App("add", (L, -1))
+        want = "level - 1 of the reversed ancestors"
+    else:
+        good_idx = idx == App("neg", (L,)) or idx == App("sub", (App("len", (seq,)), L))
+        want = "-level"
     if not good_idx:
-        return f"the ancestor package of a relative import is taken at index `{show(idx)}` instead of `-level`: `from ..x import y` resolves against the wrong package", seq.fn[5:]
+        return f"the ancestor package of a relative import is taken at index `{show(idx)}` instead of `{want}`: `from ..x import y` resolves against the wrong package", seq.fn[5:]
     return None, seq.fn[5:]
 
 
@@ -498,7 +518,7 @@ def run_r4_ancestors(repo: Repo, res: Result, fq: str | None) -> None:
     if f is None:
         res.undecide("C02.R4", "ancestors function", "neither seen in the relative-import term nor found as get_parent_modules")
         return
-    samples = {"a.b.c": ["a", "a.b"], "top": [], "pkg.sub.mod.leaf": ["pkg", "pkg.sub", "pkg.sub.mod"], "x.y": ["x"]}
+    samples = {"a.b.c": ["a", "a.b"], "top": [], "pkg.sub.mod.leaf": ["pkg", "pkg.sub", "pkg.sub.mod"], "x.y": ["x"], "my_pkg.sub-mod.x_1": ["my_pkg", "my_pkg.sub-mod"]}
     folded = True
     bad: list[str] = []
     for arg, want in samples.items():
@@ -582,15 +602,19 @@ def run_r5_graph(repo: Repo, res: Result) -> None:
         ma, mb = mentions(t, a), mentions(t, b)
         return "AB" if ma and mb else "A" if ma else "B" if mb else ""
 
-    def is_import_edge(e) -> bool | None:
-        if e.kind != "ext" or e.name != "add_edge":
-            return False
-        inh = e.kwargs.get("inherits", e.args[2].get("inherits") if len(e.args) > 2 and isinstance(e.args[2], dict) else None)
-        if inh is True:
-            return False
-        if inh is False or inh is None:
-            return True
-        return None
+    def endpoints(e) -> tuple[str, str] | None:
+        if e.kind != "ext" or e.name != "add_edge" or len(e.args) < 2:
+            return None
+        return about(e.args[0]), about(e.args[1])
+
+    def attrs(e) -> dict:
+        d = dict(e.args[2]) if len(e.args) > 2 and isinstance(e.args[2], dict) else {}
+        d.update(e.kwargs)
+        return d
+
+    # edges inside one module hierarchy (both ends derived from the same side of the record) carry the marker of hierarchy edges
+    hier = [attrs(e) for r in runs for e in r.effects if endpoints(e) in (("A", "A"), ("B", "B"))]
+    hier_marker = {k: v for k, v in hier[0].items() if isinstance(v, bool) and all(h.get(k) is v for h in hier)} if hier else {}
 
     def known_node(r: Run, e, t: Any) -> bool:
         """has_node(t) was established before the edge is added and no node has been removed since."""
@@ -610,17 +634,22 @@ def run_r5_graph(repo: Repo, res: Result) -> None:
     for r in runs:
         got = False
         for e in r.effects:
-            ie = is_import_edge(e)
-            if ie is None:
-                unknown.append(f"add_edge with an `inherits` value that is not a constant: {show(e.kwargs.get('inherits'))}")
-                continue
-            if not ie:
-                continue
+            ep = endpoints(e)
+            if ep is None or not ("A" in ep[0] + ep[1] and "B" in ep[0] + ep[1]):
+                continue  # not an edge between the two sides of the import record
             n_edges += 1
             edge_where = e.where or edge_where
             x, y = e.args[0], e.args[1]
-            if about(x) != "A" or about(y) != "B":
-                orient_bad.append(f"an import edge is added from {show(x)} to {show(y)}: its endpoints are not (importer, importee) of the import record")
+            if ep != ("A", "B"):
+                orient_bad.append(f"an edge is added from {show(x)} to {show(y)}: its endpoints are not (importer, importee) of the import record")
+                continue
+            at = attrs(e)
+            unknown_attr = [k for k in hier_marker if not isinstance(at.get(k), bool) and k in at]
+            if unknown_attr:
+                unknown.append(f"the edge importer -> importee is added with `{unknown_attr[0]}` = {show(at[unknown_attr[0]])}, not a constant")
+                continue
+            if hier_marker and all(at.get(k) is v for k, v in hier_marker.items()):
+                orient_bad.append(f"the edge {show(x)} -> {show(y)} is marked like a parent-child edge ({', '.join(f'{k}={v}' for k, v in hier_marker.items())}): it does not count as an import")
                 continue
             got = got or not e.in_loop
             for t in (x, y):
